@@ -18,7 +18,10 @@ ASSUMPTIONS = ["variable and terminal value sets are disjoint (a grammar has V a
 def gen(rng, tier):
     if tier == "thorough" and rng.chance(0.25):
         return G.gen_cfg(rng, max_vars=5, max_prods=10, max_body=5)      # larger shapes in the deep tier
-    return G.gen_cfg(rng)
+    c = G.gen_cfg(rng)
+    if c["valmode"] == "str" and rng.chance(0.06):
+        c["valmode"] = "mixed2"      # terminals that print alike (1 / "1" / "1 1")
+    return c
 
 
 def shrink(case):
